@@ -26,16 +26,17 @@ type Svc struct {
 	inflt   map[string]int
 	MaxInfl map[string]int
 	// Sched mode: ask the explorer for each request's outcome.
-	Outcomes   func(name string) []string // e.g. {"ok","fail","hang"}; nil = scripted by fail map
-	Pad        func(ver uint32) int       // if set, a version's value is preceded by this many filler bytes
-	Seams      bool                       // park at a scheduler seam before answering
-	Latency    time.Duration              // every request takes this long (virtual time) before it is answered
-	now        func() time.Duration
-	Dead       bool
-	Release    chan struct{} // closed at teardown: hanging requests return
-	IgnoreCtx  bool          // answer from the script even when the caller's context has ended
-	CtxLikeErr bool          // scripted failures look like a timeout that is not the caller's
-	MaxReqs    int           // >0: panic when more requests than this arrive (runaway guard)
+	Outcomes     func(name string) []string // e.g. {"ok","fail","hang"}; nil = scripted by fail map
+	NotFoundFail map[string]bool            // the next scripted failure for the name answers "not found" although the secret exists
+	Pad          func(ver uint32) int       // if set, a version's value is preceded by this many filler bytes
+	Seams        bool                       // park at a scheduler seam before answering
+	Latency      time.Duration              // every request takes this long (virtual time) before it is answered
+	now          func() time.Duration
+	Dead         bool
+	Release      chan struct{} // closed at teardown: hanging requests return
+	IgnoreCtx    bool          // answer from the script even when the caller's context has ended
+	CtxLikeErr   bool          // scripted failures look like a timeout that is not the caller's
+	MaxReqs      int           // >0: panic when more requests than this arrive (runaway guard)
 	// Served records every value ever handed out, per name.
 	Served map[string]map[string]bool
 	// History of activations, for "active at some instant during the poll".
@@ -151,6 +152,10 @@ func (s *Svc) NowSeq() int {
 
 var errSvc = errors.New("service error (scripted)")
 
+// PatientKey marks the context of a caller whose requests the scripted service answers under the
+// outcome "hang-unless-patient".
+type PatientKey struct{}
+
 func (s *Svc) answer(ctx context.Context, name string, cond bool, old uint32) (*api.SecretValue, error) {
 	if s.Seams {
 		sched.Seam("svc.request(" + name + ")")
@@ -173,6 +178,10 @@ func (s *Svc) answer(ctx context.Context, name string, cond bool, old uint32) (*
 	} else if s.fail[name] > 0 {
 		s.fail[name]--
 		outcome = "fail"
+		if s.NotFoundFail[name] {
+			outcome = "fail-notfound"
+			delete(s.NotFoundFail, name)
+		}
 	}
 	var outs []string
 	if s.Outcomes != nil {
@@ -183,6 +192,13 @@ func (s *Svc) answer(ctx context.Context, name string, cond bool, old uint32) (*
 		outcome = outs[sched.Choose("svc("+name+")", len(outs))]
 	} else if len(outs) == 1 {
 		outcome = outs[0]
+	}
+	if outcome == "hang-unless-patient" {
+		// hang for everybody but the caller whose context carries PatientKey
+		outcome = "hang"
+		if ctx.Value(PatientKey{}) != nil {
+			outcome = "ok"
+		}
 	}
 	done := func(res string) {
 		s.mu.Lock()
@@ -198,6 +214,10 @@ func (s *Svc) answer(ctx context.Context, name string, cond bool, old uint32) (*
 		return nil, ctx.Err()
 	}
 	switch outcome {
+	case "fail-notfound":
+		// a failure that looks like "no such secret" (a 404 from something in front of the service)
+		done("fail")
+		return nil, fmt.Errorf("upstream said: %w", api.ErrNotFound)
 	case "fail":
 		done("fail")
 		if s.CtxLikeErr {
